@@ -335,6 +335,63 @@ async fn metadata_file(lens: Vec<usize>) -> Result<(), String> {
     Ok(())
 }
 
+
+/// C20 (s20_8): a real TransferWriter writes a header with one table name and records (odd ones named by table id) with values of the given
+/// lengths; TransferReader (whole file in memory) and TransferFileReader (FileMessageReader over the file) must read exactly them back.
+async fn transfer_file(lens: Vec<usize>) -> Result<(), String> {
+    use crate::transfer::model::{TransferHeaderDto, TransferRecordDto};
+    use crate::transfer::reader::{reader_transfer_record, TransferFileReader, TransferReader};
+    use crate::transfer::writer::TransferWriter;
+    let dir = tempfile::tempdir().unwrap();
+    let path = dir.path().join("tf").to_string_lossy().into_owned();
+    let table = Arc::new("T_CONFIG".to_string());
+    let mut header = TransferHeaderDto::new(1);
+    header.add_name(table.clone());
+    let mut w = TransferWriter::init(&path, header).await.map_err(|e| format!("MODEL: writer init: {}", e))?;
+    let mut written = vec![];
+    for (i, n) in lens.iter().enumerate() {
+        let value: Vec<u8> = (0..*n).map(|j| ((i * 37 + j * 11 + 5) % 251 + 1) as u8).collect();
+        let by_id = i % 2 == 1;
+        let rec = TransferRecordDto { table_name: if by_id { None } else { Some(table.clone()) }, table_id: if by_id { 1 } else { 0 }, key: vec![i as u8 + 1], value };
+        w.write_record(&rec).await.map_err(|e| format!("MODEL: write_record: {}", e))?;
+        written.push(rec);
+    }
+    w.flush().await.map_err(|e| format!("MODEL: flush: {}", e))?;
+    let data = std::fs::read(&path).map_err(|e| format!("MODEL: read file: {}", e))?;
+    let mut r = TransferReader::new(data).map_err(|e| format!("value lengths {:?}: TransferReader cannot open the file: {}", lens, e))?;
+    for (i, want) in written.iter().enumerate() {
+        match r.read_record() {
+            Ok(Some(got)) => {
+                if got.table_name.as_str() != "T_CONFIG" || got.key.as_ref() != want.key.as_slice() || got.value.as_ref() != want.value.as_slice() {
+                    return Err(format!("value lengths {:?}, TransferReader: record {} is read back as table {:?}, key {:?}, a value of {} bytes", lens, i, got.table_name, got.key, got.value.len()));
+                }
+            }
+            Ok(None) => return Err(format!("value lengths {:?}, TransferReader: {} records are read back, {} were written", lens, i, written.len())),
+            Err(e) => return Err(format!("value lengths {:?}, TransferReader: reading fails after {} of {} records: {}", lens, i, written.len(), e)),
+        }
+    }
+    if let Ok(Some(_)) = r.read_record() {
+        return Err(format!("value lengths {:?}, TransferReader: a record is read back that was not written", lens));
+    }
+    let mut fr = TransferFileReader::new(&path).await.map_err(|e| format!("value lengths {:?}: TransferFileReader cannot open the file: {}", lens, e))?;
+    let mut n = 0;
+    while let Ok(Some(vec)) = fr.read_record_vec().await {
+        if n >= written.len() {
+            return Err(format!("value lengths {:?}, TransferFileReader: a record is read back that was not written", lens));
+        }
+        let got = reader_transfer_record(&vec, &fr.header).map_err(|e| format!("value lengths {:?}, TransferFileReader: record {} cannot be decoded: {}", lens, n, e))?;
+        let want = &written[n];
+        if got.table_name.as_str() != "T_CONFIG" || got.key.as_ref() != want.key.as_slice() || got.value.as_ref() != want.value.as_slice() {
+            return Err(format!("value lengths {:?}, TransferFileReader: record {} is read back as table {:?}, key {:?}, a value of {} bytes", lens, n, got.table_name, got.key, got.value.len()));
+        }
+        n += 1;
+    }
+    if n != written.len() {
+        return Err(format!("value lengths {:?}, TransferFileReader: {} records are read back, {} were written", lens, n, written.len()));
+    }
+    Ok(())
+}
+
 thread_local! {
     /// operation list of the replay file (scenarios that replay a solver history read it)
     static OPS: std::cell::RefCell<Vec<serde_json::Value>> = std::cell::RefCell::new(vec![]);
@@ -584,6 +641,9 @@ async fn scenario(name: &str) -> Result<(), String> {
     }
     if name == "filestore_hard_state" {
         return filestore_hard_state().await;
+    }
+    if let Some(l) = name.strip_prefix("transfer_file_") {
+        return transfer_file(l.split('_').filter_map(|x| x.parse().ok()).collect()).await;
     }
     if let Some(l) = name.strip_prefix("metadata_file_") {
         return metadata_file(l.split('_').filter_map(|x| x.parse().ok()).collect()).await;
